@@ -15,7 +15,7 @@ EXPLAIN = "c01_explain"
 CASES_PER_FILE = 60
 CASE_FILE_BYTES = 120000
 TIERS = {"quick": {"n": 1400}, "thorough": {"n": 30000}}
-RULE = ("histories of 1-40 (thorough: 1-70) public operations over two live OrderedMultiDicts, 2-5 key tokens and "
+RULE = ("class under test OrderedMultiDict (3/4) or its subclass urlutils.QueryParamDict (1/4); histories of 1-40 (thorough: 1-70) public operations over two live OrderedMultiDicts, 2-5 key tokens and "
         "3-6 value tokens, arguments rotated over list/tuple/generator/iterator/list-of-lists, dict/OrderedDict/"
         "mappingproxy/keys()+__getitem__ object, the other OMD, the object itself, kwargs; returned and passed "
         "containers are mutated after the call; non-trivial = some key reached >= 2 pairs and a later operation "
@@ -281,7 +281,7 @@ def _gen_case(rng, tier):
             _shadow(regs, r, op)
         ops.append(op)
     ops[-1]["snap"] = True
-    return {"ops": ops}
+    return {"cls": rng.choice(["OMD", "OMD", "OMD", "QPD"]), "ops": ops}
 
 
 def generate(rng, tier, n):
@@ -546,7 +546,8 @@ def _do(OMD, regs, op):
         elif w == "self":
             x = d
         elif w == "pairs":
-            x = OMD([(obj(k), obj(v)) for k, v in op["l"]])
+            from boltons.dictutils import OMD as BaseOMD      # for a subclass this is a cross-class comparison
+            x = BaseOMD([(obj(k), obj(v)) for k, v in op["l"]])
         elif w == "map":
             x = _map_arg(op["m"], op["kind"])
         else:
@@ -560,7 +561,10 @@ def _do(OMD, regs, op):
 
 
 def run_impl(case):
-    from boltons.dictutils import OrderedMultiDict as OMD
+    if case.get("cls", "OMD") == "QPD":
+        from boltons.urlutils import QueryParamDict as OMD      # inherits dictutils.OrderedMultiDict
+    else:
+        from boltons.dictutils import OrderedMultiDict as OMD
     regs = [OMD(), OMD()]
     obs = []
     for op in case["ops"]:
@@ -756,6 +760,8 @@ def nontrivial(case, obs):
 def distribution(d, case, obs):
     ops = d.setdefault("ops", {})
     errs = d.setdefault("raised", {})
+    cl = d.setdefault("class", {})
+    cl[case.get("cls", "OMD")] = cl.get(case.get("cls", "OMD"), 0) + 1
     args = d.setdefault("arg_kinds", {})
     for op, o in zip(case["ops"], obs):
         n = op["op"]
@@ -787,4 +793,4 @@ def distribution(d, case, obs):
 
 
 def sample(case, obs):
-    return {"ops": case["ops"][:5], "obs": obs[:5]}
+    return {"cls": case.get("cls", "OMD"), "ops": case["ops"][:5], "obs": obs[:5]}
